@@ -18,6 +18,28 @@ theorem genTraitDef_ident (opts ind depMode subAttrs vis ident tg sup fns mode) 
     (genTraitDef opts ind depMode subAttrs vis ident tg sup fns mode).ident = ident := by
   simp [genTraitDef]
 
+/-- the model's module-mode visibility is the specified one -/
+theorem moduleVis_eq (vis : Toks) :
+    (if vis = [] then [i "pub", parens [i "super"]] else rebaseVis vis) = visFromInside vis := by
+  by_cases hv : vis = []
+  · subst hv; rfl
+  · simp only [hv, if_false]
+    unfold rebaseVis
+    split
+    · rfl
+    · rfl
+    · rfl
+    · rfl
+    · rename_i h2 h3 h4 h5
+      unfold visFromInside
+      split
+      · exact absurd rfl hv
+      · exact absurd rfl h2
+      · exact absurd rfl h3
+      · rename_i rest; exact absurd rfl (h4 rest)
+      · rename_i rest; exact absurd rfl (h5 rest)
+      · rfl
+
 theorem T_C13 (v : Variant) (attr : Toks) (item : Item) (out : Out)
     (h : expand v attr item = .ok out) : P_C13 attr item out.view = true := by
   cases item with
@@ -29,7 +51,7 @@ theorem T_C13 (v : Variant) (attr : Toks) (item : Item) (out : Out)
     split at h
     · simp at h
     · obtain ⟨items, a, fns, tg, depMode, implBlock, _, h1, _, _, _, rfl⟩ := expandMod_ok h
-      simp [P_C13, h1, Out.view, View.items, Out.inside, Out.after, mainTrait?, traitsOf, genTraitDef_vis, traitVisibility]
+      simp [P_C13, h1, Out.view, View.items, Out.inside, Out.after, mainTrait?, traitsOf, genTraitDef_vis, traitVisibility, moduleVis_eq]
   | trait t =>
     obtain ⟨a0, fns, delegation, h1, _, h3, rfl⟩ := expandTrait_ok h
     simp only [P_C13, h1, Out.view, View.items, Out.inside, Out.after, List.nil_append, traitsOf, List.cons_append]
